@@ -52,7 +52,7 @@ var scenNumbers = []string{"-1", "0", "1000000", "-5", "007", "1e3", "0x10", "1.
 
 const (
 	hugeStepCount = 1000000   // name(N): N copies of a ~150-byte request
-	hugeWeight    = 70000000 // N pointers in the ammo ring
+	hugeWeight    = 40000000 // N pointers in the ammo ring
 )
 
 var badSteps = []struct {
@@ -357,6 +357,14 @@ var structMuts = []structMut{
 		r.Postprocessors = []sg.Postprocessor{{Type: sg.PostXpath, Mapping: &sg.KVs{{K: "v", V: rapid.SampledFrom(scalarXpaths).Draw(t, "pexpr")}}}}
 		return true
 	}},
+	{"xpath_type_error", "", func(t *rapid.T, m *sg.Model, _ map[string]string) bool {
+		if len(m.Requests) == 0 {
+			return false
+		}
+		r := &m.Requests[rapid.IntRange(0, len(m.Requests)-1).Draw(t, "req")]
+		r.Postprocessors = []sg.Postprocessor{{Type: sg.PostXpath, Mapping: &sg.KVs{{K: "v", V: rapid.SampledFrom(typeErrorXpaths).Draw(t, "pexpr")}}}}
+		return true
+	}},
 }
 
 func structMutNames() []string {
@@ -456,7 +464,7 @@ func genScenCase(r *vf.Run) func(t *rapid.T) ScenCase {
 		avoid := map[string]bool{}
 		if r != nil {
 			for mut, id := range map[string]string{"leading_sleep": fLeadingSleep, "only_sleep": fLeadingSleep, "property_placeholder_without_key": fPropertyNoKey,
-				"xpath_non_nodeset": fXpathNonNodeSet, "huge_step_count": fHugeStepCount} {
+				"xpath_non_nodeset": fXpathNonNodeSet, "xpath_type_error": fXpathEval, "huge_step_count": fHugeStepCount} {
 				if r.IsKnown(id) {
 					avoid[mut] = true
 				}
@@ -545,7 +553,7 @@ func checkScen(c ScenCase, o *vf.Obs) error {
 	} else {
 		note("input", fmt.Sprintf("%q ... (%d bytes)", c.Text[:512], len(c.Text)))
 	}
-	err := judge(note, len(c.Text), func() error { return scenBody(c, o) })
+	err := judge(note, len(c.Text), smallCeiling, func() error { return scenBody(c, o) })
 	if v, ok := err.(*violation); ok && v.id == "" && strings.HasPrefix(v.msg, "ALLOCATION") && hugeScenNumber.Match(c.Text) {
 		// memory in proportion to a number of the description: a repetition count name(N) or a weight
 		if hugeCountRe.Match(c.Text) {
